@@ -18,3 +18,13 @@ def fast_scrypt():
 def no_checkpoints():
     import skepticoin.consensus
     skepticoin.consensus.MAX_KNOWN_HASH_HEIGHT = -1
+
+
+def fresh_block_store():
+    """a new block store in a new scratch directory (sqlite connections must not be shared across fork)"""
+    import skepticoin.blockstore as bs
+    d = tempfile.mkdtemp(prefix="skv-store-")
+    atexit.register(lambda: shutil.rmtree(d, ignore_errors=True))
+    os.chdir(d)
+    bs.DefaultBlockStore.instance = bs.BlockStore('chain.db')
+    return bs.DefaultBlockStore.instance
